@@ -110,13 +110,12 @@ type world struct {
 	keyLabel map[string]string // cache key string -> "h<i>.s<j>"
 	capacity int
 	maxLen   int32
-	calls    sync.Map     // call number -> *callSpec
-	pending  int32        // frames received and not answered yet
-	frames   map[int]int  // EXECUTE/BATCH frames per call (history lock)
-	cut      map[int]bool // calls declared not terminating
-	nforget  int          // scripted "forget" / foreign-id answers so far
+	calls    sync.Map          // call number -> *callSpec
+	pending  int32             // frames received and not answered yet
+	frames   map[int]int       // EXECUTE/BATCH frames per call (history lock)
+	cut      map[int]bool      // calls declared not terminating
+	nforget  int               // scripted "forget" / foreign-id answers so far
 	live     map[int]*liveCall // calls with a cancellable context (history lock)
-	noProbe  bool
 	// hooks for directed scenarios: called with the history lock held, may override the fate
 	onPrepare func(n *nodeState, stmt int, serial int) (pfate, chan struct{})
 	onExec    func(n *nodeState, call int, known bool) (xfate, chan struct{}, bool)
@@ -862,9 +861,7 @@ func (w *world) probes(wg *sync.WaitGroup) *sync.WaitGroup {
 
 func (rn *runner) emit(w *world, wg *sync.WaitGroup, class string) bool {
 	rn.seq++
-	if !w.noProbe {
-		wg = w.probes(wg)
-	}
+	wg = w.probes(wg)
 	op, hung := w.finish(wg, rn.outdir, fmt.Sprintf("%d", rn.seq))
 	cls := "conc/" + class
 	if hung != "" {
